@@ -169,6 +169,106 @@ theorem addAll_get {r : Reg Nat} {l : List (Nat × Nat)}
         have : k ≠ k0 := fun e => h1 v0 (by subst e; exact List.mem_cons_self)
         simp [this, h2]
 
+/-! ### index registries: the generic steps
+
+`P k x` reads "entity `x` must be listed under key `k`".  Each lemma turns the old
+agreement `∀ k x, r.get k = some x ↔ P k x` into the agreement of the updated registry
+with the updated `P'`, given how `P'` relates to `P` (a quantifier-free side condition). -/
+
+section idx
+variable {κ : Type} [DecidableEq κ]
+
+theorem idx_congr {r : Reg κ} {P P' : κ → Nat → Prop}
+    (h : ∀ k x, r.get k = some x ↔ P k x) (hc : ∀ k x, P' k x ↔ P k x) :
+    ∀ k x, r.get k = some x ↔ P' k x :=
+  fun k x => (h k x).trans (hc k x).symm
+
+theorem idx_nil {P' : κ → Nat → Prop} (hc : ∀ k x, ¬ P' k x) :
+    ∀ k x, Reg.get ([] : Reg κ) k = some x ↔ P' k x := by
+  intro k x; simp only [Reg.get_nil]; constructor
+  · intro h; cases h
+  · intro h; exact absurd h (hc k x)
+
+theorem idx_add {r : Reg κ} {P P' : κ → Nat → Prop} {x0 : Nat} {k0 : κ}
+    (h : ∀ k x, r.get k = some x ↔ P k x)
+    (hfree : r.get k0 = none) (hx0 : ∀ k, ¬ P k x0)
+    (hnew : ∀ k x, P' k x ↔ (x = x0 ∧ k = k0) ∨ (x ≠ x0 ∧ P k x)) :
+    ∀ k x, (r.add k0 x0).get k = some x ↔ P' k x := by
+  intro k x
+  rw [Reg.get_add, hnew]
+  by_cases hk : k = k0
+  · subst hk
+    simp only [↓reduceIte, Option.some.injEq, and_true]
+    constructor
+    · intro e; exact Or.inl e.symm
+    · rintro (e | ⟨_, e⟩)
+      · exact e.symm
+      · have := (h k x).2 e; rw [hfree] at this; cases this
+  · simp only [hk, ↓reduceIte, and_false, false_or]
+    rw [h]
+    constructor
+    · intro e; refine ⟨?_, e⟩; intro ex; subst ex; exact hx0 k e
+    · intro e; exact e.2
+
+theorem idx_remove {r : Reg κ} {P P' : κ → Nat → Prop} {x0 : Nat} {k0 : κ}
+    (h : ∀ k x, r.get k = some x ↔ P k x)
+    (hold : P k0 x0) (hfun : ∀ k, P k x0 → k = k0)
+    (hnew : ∀ k x, P' k x ↔ (x ≠ x0 ∧ P k x)) :
+    ∀ k x, (r.remove k0).get k = some x ↔ P' k x := by
+  intro k x
+  rw [Reg.get_remove, hnew]
+  by_cases hk : k = k0
+  · subst hk
+    simp only [↓reduceIte]
+    constructor
+    · intro e; cases e
+    · rintro ⟨ne, e⟩
+      have h1 := (h k x).2 e
+      have h2 := (h k x0).2 hold
+      rw [h1] at h2; exact absurd (Option.some.inj h2) ne
+  · simp only [hk, ↓reduceIte]
+    rw [h]
+    constructor
+    · intro e; refine ⟨?_, e⟩; intro ex; subst ex; exact hk (hfun k e)
+    · intro e; exact e.2
+
+theorem idx_modify {r : Reg κ} {P P' : κ → Nat → Prop} {x0 : Nat} {k0 k1 : κ}
+    (h : ∀ k x, r.get k = some x ↔ P k x)
+    (hold : P k0 x0) (hfun : ∀ k, P k x0 → k = k0) (hfree : k1 = k0 ∨ r.get k1 = none)
+    (hnew : ∀ k x, P' k x ↔ (x = x0 ∧ k = k1) ∨ (x ≠ x0 ∧ P k x)) :
+    ∀ k x, ((r.remove k0).add k1 x0).get k = some x ↔ P' k x := by
+  refine idx_add (P := fun k x => x ≠ x0 ∧ P k x)
+    (idx_remove (P' := fun k x => x ≠ x0 ∧ P k x) h hold hfun (fun _ _ => Iff.rfl)) ?_ ?_ ?_
+  · rw [Reg.get_remove]
+    by_cases hk : k1 = k0
+    · simp [hk]
+    · simp only [hk, ↓reduceIte]
+      rcases hfree with e | e
+      · exact absurd e hk
+      · exact e
+  · intro k hh; exact hh.1 rfl
+  · intro k x; rw [hnew]
+    constructor
+    · rintro (e | ⟨a, b⟩)
+      · exact Or.inl e
+      · exact Or.inr ⟨a, a, b⟩
+    · rintro (e | ⟨a, _, b⟩)
+      · exact Or.inl e
+      · exact Or.inr ⟨a, b⟩
+
+/-- several keys removed: the entities listed under them are exactly those dropped -/
+theorem idx_removeKeys {r : Reg Nat} {P P' : Nat → Nat → Prop} {ks : List Nat}
+    (h : ∀ k x, r.get k = some x ↔ P k x)
+    (hnew : ∀ k x, P' k x ↔ (k ∉ ks ∧ P k x)) :
+    ∀ k x, (removeKeys r ks).get k = some x ↔ P' k x := by
+  intro k x
+  rw [removeKeys_get, hnew]
+  by_cases hk : k ∈ ks
+  · simp [hk]
+  · simp [hk, h]
+
+end idx
+
 /-! ### reference lists -/
 
 @[simp, grind =] theorem mem_eraseRef (l : List Nat) (x y : Nat) : y ∈ eraseRef l x ↔ y ∈ l ∧ y ≠ x := by
@@ -198,6 +298,12 @@ theorem netBuses_set_same {m : AMap NetE} {x : Nat} {e e' : NetE} (h : m.get x =
   · subst hk; simp [netBuses_of_get h, hp]
   · simp [hk]
 
+theorem netBuses_set_keep {m : AMap NetE} {x : Nat} {e' : NetE}
+    (h : match m.get x with | some e => e'.buses = e.buses | none => False) : netBuses (m.set x e') = netBuses m := by
+  cases hm : m.get x with
+  | none => rw [hm] at h; exact absurd h id
+  | some e => rw [hm] at h; exact netBuses_set_same hm h
+
 @[simp, grind =] theorem netBusNames_set (m : AMap NetE) (x : Nat) (e : NetE) (k : Nat) :
     netBusNames (m.set x e) k = if k = x then e.busNames else netBusNames m k := by
   unfold netBusNames; rw [AMap.get_set]; by_cases hk : k = x <;> simp [hk]
@@ -211,6 +317,12 @@ theorem netBusNames_set_same {m : AMap NetE} {x : Nat} {e e' : NetE} (h : m.get 
   · subst hk; simp [netBusNames_of_get h, hp]
   · simp [hk]
 
+theorem netBusNames_set_keep {m : AMap NetE} {x : Nat} {e' : NetE}
+    (h : match m.get x with | some e => e'.busNames = e.busNames | none => False) : netBusNames (m.set x e') = netBusNames m := by
+  cases hm : m.get x with
+  | none => rw [hm] at h; exact absurd h id
+  | some e => rw [hm] at h; exact netBusNames_set_same hm h
+
 @[simp, grind =] theorem busName_set (m : AMap BusE) (x : Nat) (e : BusE) (k : Nat) :
     busName (m.set x e) k = if k = x then some e.name else busName m k := by
   unfold busName; rw [AMap.get_set]; by_cases hk : k = x <;> simp [hk]
@@ -223,6 +335,12 @@ theorem busName_set_same {m : AMap BusE} {x : Nat} {e e' : BusE} (h : m.get x = 
   funext k; rw [busName_set]; by_cases hk : k = x
   · subst hk; simp [busName_of_get h, hp]
   · simp [hk]
+
+theorem busName_set_keep {m : AMap BusE} {x : Nat} {e' : BusE}
+    (h : match m.get x with | some e => e'.name = e.name | none => False) : busName (m.set x e') = busName m := by
+  cases hm : m.get x with
+  | none => rw [hm] at h; exact absurd h id
+  | some e => rw [hm] at h; exact busName_set_same hm h
 
 @[grind →] theorem busName_some_get {m : AMap BusE} {k : Nat} {v} (h : busName m k = some v) : m.get k ≠ none := by
   unfold busName at h; intro hn; rw [hn] at h; cases h
@@ -242,6 +360,12 @@ theorem busParent_set_same {m : AMap BusE} {x : Nat} {e e' : BusE} (h : m.get x 
   · subst hk; simp [busParent_of_get h, hp]
   · simp [hk]
 
+theorem busParent_set_keep {m : AMap BusE} {x : Nat} {e' : BusE}
+    (h : match m.get x with | some e => e'.parent = e.parent | none => False) : busParent (m.set x e') = busParent m := by
+  cases hm : m.get x with
+  | none => rw [hm] at h; exact absurd h id
+  | some e => rw [hm] at h; exact busParent_set_same hm h
+
 @[grind →] theorem busParent_some_get {m : AMap BusE} {k : Nat} {v} (h : busParent m k = some v) : m.get k ≠ none := by
   unfold busParent at h; intro hn; rw [hn] at h; cases h
 
@@ -257,6 +381,12 @@ theorem busBuilder_set_same {m : AMap BusE} {x : Nat} {e e' : BusE} (h : m.get x
   funext k; rw [busBuilder_set]; by_cases hk : k = x
   · subst hk; simp [busBuilder_of_get h, hp]
   · simp [hk]
+
+theorem busBuilder_set_keep {m : AMap BusE} {x : Nat} {e' : BusE}
+    (h : match m.get x with | some e => e'.builder = e.builder | none => False) : busBuilder (m.set x e') = busBuilder m := by
+  cases hm : m.get x with
+  | none => rw [hm] at h; exact absurd h id
+  | some e => rw [hm] at h; exact busBuilder_set_same hm h
 
 @[grind →] theorem busBuilder_some_get {m : AMap BusE} {k : Nat} {v} (h : busBuilder m k = some v) : m.get k ≠ none := by
   unfold busBuilder at h; intro hn; rw [hn] at h; cases h
@@ -274,6 +404,12 @@ theorem busNodeInts_set_same {m : AMap BusE} {x : Nat} {e e' : BusE} (h : m.get 
   · subst hk; simp [busNodeInts_of_get h, hp]
   · simp [hk]
 
+theorem busNodeInts_set_keep {m : AMap BusE} {x : Nat} {e' : BusE}
+    (h : match m.get x with | some e => e'.nodeInts = e.nodeInts | none => False) : busNodeInts (m.set x e') = busNodeInts m := by
+  cases hm : m.get x with
+  | none => rw [hm] at h; exact absurd h id
+  | some e => rw [hm] at h; exact busNodeInts_set_same hm h
+
 @[simp, grind =] theorem busNodeNames_set (m : AMap BusE) (x : Nat) (e : BusE) (k : Nat) :
     busNodeNames (m.set x e) k = if k = x then e.nodeNames else busNodeNames m k := by
   unfold busNodeNames; rw [AMap.get_set]; by_cases hk : k = x <;> simp [hk]
@@ -286,6 +422,12 @@ theorem busNodeNames_set_same {m : AMap BusE} {x : Nat} {e e' : BusE} (h : m.get
   funext k; rw [busNodeNames_set]; by_cases hk : k = x
   · subst hk; simp [busNodeNames_of_get h, hp]
   · simp [hk]
+
+theorem busNodeNames_set_keep {m : AMap BusE} {x : Nat} {e' : BusE}
+    (h : match m.get x with | some e => e'.nodeNames = e.nodeNames | none => False) : busNodeNames (m.set x e') = busNodeNames m := by
+  cases hm : m.get x with
+  | none => rw [hm] at h; exact absurd h id
+  | some e => rw [hm] at h; exact busNodeNames_set_same hm h
 
 @[simp, grind =] theorem busNodeIDs_set (m : AMap BusE) (x : Nat) (e : BusE) (k : Nat) :
     busNodeIDs (m.set x e) k = if k = x then e.nodeIDs else busNodeIDs m k := by
@@ -300,6 +442,12 @@ theorem busNodeIDs_set_same {m : AMap BusE} {x : Nat} {e e' : BusE} (h : m.get x
   · subst hk; simp [busNodeIDs_of_get h, hp]
   · simp [hk]
 
+theorem busNodeIDs_set_keep {m : AMap BusE} {x : Nat} {e' : BusE}
+    (h : match m.get x with | some e => e'.nodeIDs = e.nodeIDs | none => False) : busNodeIDs (m.set x e') = busNodeIDs m := by
+  cases hm : m.get x with
+  | none => rw [hm] at h; exact absurd h id
+  | some e => rw [hm] at h; exact busNodeIDs_set_same hm h
+
 @[simp, grind =] theorem busStaticIDs_set (m : AMap BusE) (x : Nat) (e : BusE) (k : Nat) :
     busStaticIDs (m.set x e) k = if k = x then e.staticIDs else busStaticIDs m k := by
   unfold busStaticIDs; rw [AMap.get_set]; by_cases hk : k = x <;> simp [hk]
@@ -312,6 +460,12 @@ theorem busStaticIDs_set_same {m : AMap BusE} {x : Nat} {e e' : BusE} (h : m.get
   funext k; rw [busStaticIDs_set]; by_cases hk : k = x
   · subst hk; simp [busStaticIDs_of_get h, hp]
   · simp [hk]
+
+theorem busStaticIDs_set_keep {m : AMap BusE} {x : Nat} {e' : BusE}
+    (h : match m.get x with | some e => e'.staticIDs = e.staticIDs | none => False) : busStaticIDs (m.set x e') = busStaticIDs m := by
+  cases hm : m.get x with
+  | none => rw [hm] at h; exact absurd h id
+  | some e => rw [hm] at h; exact busStaticIDs_set_same hm h
 
 @[simp, grind =] theorem busAttrs_set (m : AMap BusE) (x : Nat) (e : BusE) (k : Nat) :
     busAttrs (m.set x e) k = if k = x then e.attrs else busAttrs m k := by
@@ -326,6 +480,12 @@ theorem busAttrs_set_same {m : AMap BusE} {x : Nat} {e e' : BusE} (h : m.get x =
   · subst hk; simp [busAttrs_of_get h, hp]
   · simp [hk]
 
+theorem busAttrs_set_keep {m : AMap BusE} {x : Nat} {e' : BusE}
+    (h : match m.get x with | some e => e'.attrs = e.attrs | none => False) : busAttrs (m.set x e') = busAttrs m := by
+  cases hm : m.get x with
+  | none => rw [hm] at h; exact absurd h id
+  | some e => rw [hm] at h; exact busAttrs_set_same hm h
+
 @[simp, grind =] theorem nodeNameC_set (m : AMap NodeE) (x : Nat) (e : NodeE) (k : Nat) :
     nodeNameC (m.set x e) k = if k = x then e.name else nodeNameC m k := by
   unfold nodeNameC; rw [AMap.get_set]; by_cases hk : k = x <;> simp [hk]
@@ -338,6 +498,12 @@ theorem nodeNameC_set_same {m : AMap NodeE} {x : Nat} {e e' : NodeE} (h : m.get 
   funext k; rw [nodeNameC_set]; by_cases hk : k = x
   · subst hk; simp [nodeNameC_of_get h, hp]
   · simp [hk]
+
+theorem nodeNameC_set_keep {m : AMap NodeE} {x : Nat} {e' : NodeE}
+    (h : match m.get x with | some e => e'.name = e.name | none => False) : nodeNameC (m.set x e') = nodeNameC m := by
+  cases hm : m.get x with
+  | none => rw [hm] at h; exact absurd h id
+  | some e => rw [hm] at h; exact nodeNameC_set_same hm h
 
 @[simp, grind =] theorem nodeNidC_set (m : AMap NodeE) (x : Nat) (e : NodeE) (k : Nat) :
     nodeNidC (m.set x e) k = if k = x then e.nid else nodeNidC m k := by
@@ -352,6 +518,12 @@ theorem nodeNidC_set_same {m : AMap NodeE} {x : Nat} {e e' : NodeE} (h : m.get x
   · subst hk; simp [nodeNidC_of_get h, hp]
   · simp [hk]
 
+theorem nodeNidC_set_keep {m : AMap NodeE} {x : Nat} {e' : NodeE}
+    (h : match m.get x with | some e => e'.nid = e.nid | none => False) : nodeNidC (m.set x e') = nodeNidC m := by
+  cases hm : m.get x with
+  | none => rw [hm] at h; exact absurd h id
+  | some e => rw [hm] at h; exact nodeNidC_set_same hm h
+
 @[simp, grind =] theorem nodeIfaces_set (m : AMap NodeE) (x : Nat) (e : NodeE) (k : Nat) :
     nodeIfaces (m.set x e) k = if k = x then e.ifaces else nodeIfaces m k := by
   unfold nodeIfaces; rw [AMap.get_set]; by_cases hk : k = x <;> simp [hk]
@@ -364,6 +536,12 @@ theorem nodeIfaces_set_same {m : AMap NodeE} {x : Nat} {e e' : NodeE} (h : m.get
   funext k; rw [nodeIfaces_set]; by_cases hk : k = x
   · subst hk; simp [nodeIfaces_of_get h, hp]
   · simp [hk]
+
+theorem nodeIfaces_set_keep {m : AMap NodeE} {x : Nat} {e' : NodeE}
+    (h : match m.get x with | some e => e'.ifaces = e.ifaces | none => False) : nodeIfaces (m.set x e') = nodeIfaces m := by
+  cases hm : m.get x with
+  | none => rw [hm] at h; exact absurd h id
+  | some e => rw [hm] at h; exact nodeIfaces_set_same hm h
 
 @[simp, grind =] theorem nodeIfaceCount_set (m : AMap NodeE) (x : Nat) (e : NodeE) (k : Nat) :
     nodeIfaceCount (m.set x e) k = if k = x then e.ifaceCount else nodeIfaceCount m k := by
@@ -378,6 +556,12 @@ theorem nodeIfaceCount_set_same {m : AMap NodeE} {x : Nat} {e e' : NodeE} (h : m
   · subst hk; simp [nodeIfaceCount_of_get h, hp]
   · simp [hk]
 
+theorem nodeIfaceCount_set_keep {m : AMap NodeE} {x : Nat} {e' : NodeE}
+    (h : match m.get x with | some e => e'.ifaceCount = e.ifaceCount | none => False) : nodeIfaceCount (m.set x e') = nodeIfaceCount m := by
+  cases hm : m.get x with
+  | none => rw [hm] at h; exact absurd h id
+  | some e => rw [hm] at h; exact nodeIfaceCount_set_same hm h
+
 @[simp, grind =] theorem nodeAttrs_set (m : AMap NodeE) (x : Nat) (e : NodeE) (k : Nat) :
     nodeAttrs (m.set x e) k = if k = x then e.attrs else nodeAttrs m k := by
   unfold nodeAttrs; rw [AMap.get_set]; by_cases hk : k = x <;> simp [hk]
@@ -391,6 +575,12 @@ theorem nodeAttrs_set_same {m : AMap NodeE} {x : Nat} {e e' : NodeE} (h : m.get 
   · subst hk; simp [nodeAttrs_of_get h, hp]
   · simp [hk]
 
+theorem nodeAttrs_set_keep {m : AMap NodeE} {x : Nat} {e' : NodeE}
+    (h : match m.get x with | some e => e'.attrs = e.attrs | none => False) : nodeAttrs (m.set x e') = nodeAttrs m := by
+  cases hm : m.get x with
+  | none => rw [hm] at h; exact absurd h id
+  | some e => rw [hm] at h; exact nodeAttrs_set_same hm h
+
 @[simp, grind =] theorem ifaceNode_set (m : AMap IfaceE) (x : Nat) (e : IfaceE) (k : Nat) :
     ifaceNode (m.set x e) k = if k = x then some e.node else ifaceNode m k := by
   unfold ifaceNode; rw [AMap.get_set]; by_cases hk : k = x <;> simp [hk]
@@ -403,6 +593,12 @@ theorem ifaceNode_set_same {m : AMap IfaceE} {x : Nat} {e e' : IfaceE} (h : m.ge
   funext k; rw [ifaceNode_set]; by_cases hk : k = x
   · subst hk; simp [ifaceNode_of_get h, hp]
   · simp [hk]
+
+theorem ifaceNode_set_keep {m : AMap IfaceE} {x : Nat} {e' : IfaceE}
+    (h : match m.get x with | some e => e'.node = e.node | none => False) : ifaceNode (m.set x e') = ifaceNode m := by
+  cases hm : m.get x with
+  | none => rw [hm] at h; exact absurd h id
+  | some e => rw [hm] at h; exact ifaceNode_set_same hm h
 
 @[grind →] theorem ifaceNode_some_get {m : AMap IfaceE} {k : Nat} {v} (h : ifaceNode m k = some v) : m.get k ≠ none := by
   unfold ifaceNode at h; intro hn; rw [hn] at h; cases h
@@ -422,6 +618,12 @@ theorem ifaceNumber_set_same {m : AMap IfaceE} {x : Nat} {e e' : IfaceE} (h : m.
   · subst hk; simp [ifaceNumber_of_get h, hp]
   · simp [hk]
 
+theorem ifaceNumber_set_keep {m : AMap IfaceE} {x : Nat} {e' : IfaceE}
+    (h : match m.get x with | some e => e'.number = e.number | none => False) : ifaceNumber (m.set x e') = ifaceNumber m := by
+  cases hm : m.get x with
+  | none => rw [hm] at h; exact absurd h id
+  | some e => rw [hm] at h; exact ifaceNumber_set_same hm h
+
 @[simp, grind =] theorem ifaceBus_set (m : AMap IfaceE) (x : Nat) (e : IfaceE) (k : Nat) :
     ifaceBus (m.set x e) k = if k = x then e.parentBus else ifaceBus m k := by
   unfold ifaceBus; rw [AMap.get_set]; by_cases hk : k = x <;> simp [hk]
@@ -434,6 +636,12 @@ theorem ifaceBus_set_same {m : AMap IfaceE} {x : Nat} {e e' : IfaceE} (h : m.get
   funext k; rw [ifaceBus_set]; by_cases hk : k = x
   · subst hk; simp [ifaceBus_of_get h, hp]
   · simp [hk]
+
+theorem ifaceBus_set_keep {m : AMap IfaceE} {x : Nat} {e' : IfaceE}
+    (h : match m.get x with | some e => e'.parentBus = e.parentBus | none => False) : ifaceBus (m.set x e') = ifaceBus m := by
+  cases hm : m.get x with
+  | none => rw [hm] at h; exact absurd h id
+  | some e => rw [hm] at h; exact ifaceBus_set_same hm h
 
 @[grind →] theorem ifaceBus_some_get {m : AMap IfaceE} {k : Nat} {v} (h : ifaceBus m k = some v) : m.get k ≠ none := by
   unfold ifaceBus at h; intro hn; rw [hn] at h; cases h
@@ -451,6 +659,12 @@ theorem ifaceSent_set_same {m : AMap IfaceE} {x : Nat} {e e' : IfaceE} (h : m.ge
   · subst hk; simp [ifaceSent_of_get h, hp]
   · simp [hk]
 
+theorem ifaceSent_set_keep {m : AMap IfaceE} {x : Nat} {e' : IfaceE}
+    (h : match m.get x with | some e => e'.sent = e.sent | none => False) : ifaceSent (m.set x e') = ifaceSent m := by
+  cases hm : m.get x with
+  | none => rw [hm] at h; exact absurd h id
+  | some e => rw [hm] at h; exact ifaceSent_set_same hm h
+
 @[simp, grind =] theorem ifaceSentNames_set (m : AMap IfaceE) (x : Nat) (e : IfaceE) (k : Nat) :
     ifaceSentNames (m.set x e) k = if k = x then e.sentNames else ifaceSentNames m k := by
   unfold ifaceSentNames; rw [AMap.get_set]; by_cases hk : k = x <;> simp [hk]
@@ -463,6 +677,12 @@ theorem ifaceSentNames_set_same {m : AMap IfaceE} {x : Nat} {e e' : IfaceE} (h :
   funext k; rw [ifaceSentNames_set]; by_cases hk : k = x
   · subst hk; simp [ifaceSentNames_of_get h, hp]
   · simp [hk]
+
+theorem ifaceSentNames_set_keep {m : AMap IfaceE} {x : Nat} {e' : IfaceE}
+    (h : match m.get x with | some e => e'.sentNames = e.sentNames | none => False) : ifaceSentNames (m.set x e') = ifaceSentNames m := by
+  cases hm : m.get x with
+  | none => rw [hm] at h; exact absurd h id
+  | some e => rw [hm] at h; exact ifaceSentNames_set_same hm h
 
 @[simp, grind =] theorem ifaceSentIDs_set (m : AMap IfaceE) (x : Nat) (e : IfaceE) (k : Nat) :
     ifaceSentIDs (m.set x e) k = if k = x then e.sentIDs else ifaceSentIDs m k := by
@@ -477,6 +697,12 @@ theorem ifaceSentIDs_set_same {m : AMap IfaceE} {x : Nat} {e e' : IfaceE} (h : m
   · subst hk; simp [ifaceSentIDs_of_get h, hp]
   · simp [hk]
 
+theorem ifaceSentIDs_set_keep {m : AMap IfaceE} {x : Nat} {e' : IfaceE}
+    (h : match m.get x with | some e => e'.sentIDs = e.sentIDs | none => False) : ifaceSentIDs (m.set x e') = ifaceSentIDs m := by
+  cases hm : m.get x with
+  | none => rw [hm] at h; exact absurd h id
+  | some e => rw [hm] at h; exact ifaceSentIDs_set_same hm h
+
 @[simp, grind =] theorem ifaceSentStatic_set (m : AMap IfaceE) (x : Nat) (e : IfaceE) (k : Nat) :
     ifaceSentStatic (m.set x e) k = if k = x then e.sentStatic else ifaceSentStatic m k := by
   unfold ifaceSentStatic; rw [AMap.get_set]; by_cases hk : k = x <;> simp [hk]
@@ -489,6 +715,12 @@ theorem ifaceSentStatic_set_same {m : AMap IfaceE} {x : Nat} {e e' : IfaceE} (h 
   funext k; rw [ifaceSentStatic_set]; by_cases hk : k = x
   · subst hk; simp [ifaceSentStatic_of_get h, hp]
   · simp [hk]
+
+theorem ifaceSentStatic_set_keep {m : AMap IfaceE} {x : Nat} {e' : IfaceE}
+    (h : match m.get x with | some e => e'.sentStatic = e.sentStatic | none => False) : ifaceSentStatic (m.set x e') = ifaceSentStatic m := by
+  cases hm : m.get x with
+  | none => rw [hm] at h; exact absurd h id
+  | some e => rw [hm] at h; exact ifaceSentStatic_set_same hm h
 
 @[simp, grind =] theorem ifaceRecv_set (m : AMap IfaceE) (x : Nat) (e : IfaceE) (k : Nat) :
     ifaceRecv (m.set x e) k = if k = x then e.received else ifaceRecv m k := by
@@ -503,6 +735,12 @@ theorem ifaceRecv_set_same {m : AMap IfaceE} {x : Nat} {e e' : IfaceE} (h : m.ge
   · subst hk; simp [ifaceRecv_of_get h, hp]
   · simp [hk]
 
+theorem ifaceRecv_set_keep {m : AMap IfaceE} {x : Nat} {e' : IfaceE}
+    (h : match m.get x with | some e => e'.received = e.received | none => False) : ifaceRecv (m.set x e') = ifaceRecv m := by
+  cases hm : m.get x with
+  | none => rw [hm] at h; exact absurd h id
+  | some e => rw [hm] at h; exact ifaceRecv_set_same hm h
+
 @[simp, grind =] theorem msgName_set (m : AMap MsgE) (x : Nat) (e : MsgE) (k : Nat) :
     msgName (m.set x e) k = if k = x then some e.name else msgName m k := by
   unfold msgName; rw [AMap.get_set]; by_cases hk : k = x <;> simp [hk]
@@ -515,6 +753,12 @@ theorem msgName_set_same {m : AMap MsgE} {x : Nat} {e e' : MsgE} (h : m.get x = 
   funext k; rw [msgName_set]; by_cases hk : k = x
   · subst hk; simp [msgName_of_get h, hp]
   · simp [hk]
+
+theorem msgName_set_keep {m : AMap MsgE} {x : Nat} {e' : MsgE}
+    (h : match m.get x with | some e => e'.name = e.name | none => False) : msgName (m.set x e') = msgName m := by
+  cases hm : m.get x with
+  | none => rw [hm] at h; exact absurd h id
+  | some e => rw [hm] at h; exact msgName_set_same hm h
 
 @[grind →] theorem msgName_some_get {m : AMap MsgE} {k : Nat} {v} (h : msgName m k = some v) : m.get k ≠ none := by
   unfold msgName at h; intro hn; rw [hn] at h; cases h
@@ -534,6 +778,12 @@ theorem msgMid_set_same {m : AMap MsgE} {x : Nat} {e e' : MsgE} (h : m.get x = s
   · subst hk; simp [msgMid_of_get h, hp]
   · simp [hk]
 
+theorem msgMid_set_keep {m : AMap MsgE} {x : Nat} {e' : MsgE}
+    (h : match m.get x with | some e => e'.mid = e.mid | none => False) : msgMid (m.set x e') = msgMid m := by
+  cases hm : m.get x with
+  | none => rw [hm] at h; exact absurd h id
+  | some e => rw [hm] at h; exact msgMid_set_same hm h
+
 @[grind →] theorem msgMid_some_get {m : AMap MsgE} {k : Nat} {v} (h : msgMid m k = some v) : m.get k ≠ none := by
   unfold msgMid at h; intro hn; rw [hn] at h; cases h
 @[grind =] theorem msgMid_eq_none {m : AMap MsgE} {k : Nat} : (msgMid m k = none) = (m.get k = none) := by
@@ -552,6 +802,12 @@ theorem msgStatic_set_same {m : AMap MsgE} {x : Nat} {e e' : MsgE} (h : m.get x 
   · subst hk; simp [msgStatic_of_get h, hp]
   · simp [hk]
 
+theorem msgStatic_set_keep {m : AMap MsgE} {x : Nat} {e' : MsgE}
+    (h : match m.get x with | some e => e'.static = e.static | none => False) : msgStatic (m.set x e') = msgStatic m := by
+  cases hm : m.get x with
+  | none => rw [hm] at h; exact absurd h id
+  | some e => rw [hm] at h; exact msgStatic_set_same hm h
+
 @[grind →] theorem msgStatic_some_get {m : AMap MsgE} {k : Nat} {v} (h : msgStatic m k = some v) : m.get k ≠ none := by
   unfold msgStatic at h; intro hn; rw [hn] at h; cases h
 
@@ -567,6 +823,12 @@ theorem msgSender_set_same {m : AMap MsgE} {x : Nat} {e e' : MsgE} (h : m.get x 
   funext k; rw [msgSender_set]; by_cases hk : k = x
   · subst hk; simp [msgSender_of_get h, hp]
   · simp [hk]
+
+theorem msgSender_set_keep {m : AMap MsgE} {x : Nat} {e' : MsgE}
+    (h : match m.get x with | some e => e'.sender = e.sender | none => False) : msgSender (m.set x e') = msgSender m := by
+  cases hm : m.get x with
+  | none => rw [hm] at h; exact absurd h id
+  | some e => rw [hm] at h; exact msgSender_set_same hm h
 
 @[grind →] theorem msgSender_some_get {m : AMap MsgE} {k : Nat} {v} (h : msgSender m k = some v) : m.get k ≠ none := by
   unfold msgSender at h; intro hn; rw [hn] at h; cases h
@@ -584,6 +846,12 @@ theorem msgReceivers_set_same {m : AMap MsgE} {x : Nat} {e e' : MsgE} (h : m.get
   · subst hk; simp [msgReceivers_of_get h, hp]
   · simp [hk]
 
+theorem msgReceivers_set_keep {m : AMap MsgE} {x : Nat} {e' : MsgE}
+    (h : match m.get x with | some e => e'.receivers = e.receivers | none => False) : msgReceivers (m.set x e') = msgReceivers m := by
+  cases hm : m.get x with
+  | none => rw [hm] at h; exact absurd h id
+  | some e => rw [hm] at h; exact msgReceivers_set_same hm h
+
 @[simp, grind =] theorem msgAttrs_set (m : AMap MsgE) (x : Nat) (e : MsgE) (k : Nat) :
     msgAttrs (m.set x e) k = if k = x then e.attrs else msgAttrs m k := by
   unfold msgAttrs; rw [AMap.get_set]; by_cases hk : k = x <;> simp [hk]
@@ -596,6 +864,12 @@ theorem msgAttrs_set_same {m : AMap MsgE} {x : Nat} {e e' : MsgE} (h : m.get x =
   funext k; rw [msgAttrs_set]; by_cases hk : k = x
   · subst hk; simp [msgAttrs_of_get h, hp]
   · simp [hk]
+
+theorem msgAttrs_set_keep {m : AMap MsgE} {x : Nat} {e' : MsgE}
+    (h : match m.get x with | some e => e'.attrs = e.attrs | none => False) : msgAttrs (m.set x e') = msgAttrs m := by
+  cases hm : m.get x with
+  | none => rw [hm] at h; exact absurd h id
+  | some e => rw [hm] at h; exact msgAttrs_set_same hm h
 
 @[simp, grind =] theorem builderRefs_set (m : AMap BuilderE) (x : Nat) (e : BuilderE) (k : Nat) :
     builderRefs (m.set x e) k = if k = x then e.refs else builderRefs m k := by
@@ -610,6 +884,12 @@ theorem builderRefs_set_same {m : AMap BuilderE} {x : Nat} {e e' : BuilderE} (h 
   · subst hk; simp [builderRefs_of_get h, hp]
   · simp [hk]
 
+theorem builderRefs_set_keep {m : AMap BuilderE} {x : Nat} {e' : BuilderE}
+    (h : match m.get x with | some e => e'.refs = e.refs | none => False) : builderRefs (m.set x e') = builderRefs m := by
+  cases hm : m.get x with
+  | none => rw [hm] at h; exact absurd h id
+  | some e => rw [hm] at h; exact builderRefs_set_same hm h
+
 @[simp, grind =] theorem attrRefs_set (m : AMap AttrE) (x : Nat) (e : AttrE) (k : Nat) :
     attrRefs (m.set x e) k = if k = x then e.refs else attrRefs m k := by
   unfold attrRefs; rw [AMap.get_set]; by_cases hk : k = x <;> simp [hk]
@@ -622,6 +902,12 @@ theorem attrRefs_set_same {m : AMap AttrE} {x : Nat} {e e' : AttrE} (h : m.get x
   funext k; rw [attrRefs_set]; by_cases hk : k = x
   · subst hk; simp [attrRefs_of_get h, hp]
   · simp [hk]
+
+theorem attrRefs_set_keep {m : AMap AttrE} {x : Nat} {e' : AttrE}
+    (h : match m.get x with | some e => e'.refs = e.refs | none => False) : attrRefs (m.set x e') = attrRefs m := by
+  cases hm : m.get x with
+  | none => rw [hm] at h; exact absurd h id
+  | some e => rw [hm] at h; exact attrRefs_set_same hm h
 
 @[simp, grind =] theorem defRefs_set (m : AMap DefE) (x : Nat) (e : DefE) (k : Nat) :
     defRefs (m.set x e) k = if k = x then e.refs else defRefs m k := by
@@ -636,6 +922,12 @@ theorem defRefs_set_same {m : AMap DefE} {x : Nat} {e e' : DefE} (h : m.get x = 
   · subst hk; simp [defRefs_of_get h, hp]
   · simp [hk]
 
+theorem defRefs_set_keep {m : AMap DefE} {x : Nat} {e' : DefE}
+    (h : match m.get x with | some e => e'.refs = e.refs | none => False) : defRefs (m.set x e') = defRefs m := by
+  cases hm : m.get x with
+  | none => rw [hm] at h; exact absurd h id
+  | some e => rw [hm] at h; exact defRefs_set_same hm h
+
 @[simp, grind =] theorem sigTyp_set (m : AMap SigE) (x : Nat) (e : SigE) (k : Nat) :
     sigTyp (m.set x e) k = if k = x then some e.typ else sigTyp m k := by
   unfold sigTyp; rw [AMap.get_set]; by_cases hk : k = x <;> simp [hk]
@@ -648,6 +940,12 @@ theorem sigTyp_set_same {m : AMap SigE} {x : Nat} {e e' : SigE} (h : m.get x = s
   funext k; rw [sigTyp_set]; by_cases hk : k = x
   · subst hk; simp [sigTyp_of_get h, hp]
   · simp [hk]
+
+theorem sigTyp_set_keep {m : AMap SigE} {x : Nat} {e' : SigE}
+    (h : match m.get x with | some e => e'.typ = e.typ | none => False) : sigTyp (m.set x e') = sigTyp m := by
+  cases hm : m.get x with
+  | none => rw [hm] at h; exact absurd h id
+  | some e => rw [hm] at h; exact sigTyp_set_same hm h
 
 @[grind →] theorem sigTyp_some_get {m : AMap SigE} {k : Nat} {v} (h : sigTyp m k = some v) : m.get k ≠ none := by
   unfold sigTyp at h; intro hn; rw [hn] at h; cases h
@@ -667,6 +965,12 @@ theorem sigUnit_set_same {m : AMap SigE} {x : Nat} {e e' : SigE} (h : m.get x = 
   · subst hk; simp [sigUnit_of_get h, hp]
   · simp [hk]
 
+theorem sigUnit_set_keep {m : AMap SigE} {x : Nat} {e' : SigE}
+    (h : match m.get x with | some e => e'.unit = e.unit | none => False) : sigUnit (m.set x e') = sigUnit m := by
+  cases hm : m.get x with
+  | none => rw [hm] at h; exact absurd h id
+  | some e => rw [hm] at h; exact sigUnit_set_same hm h
+
 @[grind →] theorem sigUnit_some_get {m : AMap SigE} {k : Nat} {v} (h : sigUnit m k = some v) : m.get k ≠ none := by
   unfold sigUnit at h; intro hn; rw [hn] at h; cases h
 
@@ -682,6 +986,12 @@ theorem sigAttrs_set_same {m : AMap SigE} {x : Nat} {e e' : SigE} (h : m.get x =
   funext k; rw [sigAttrs_set]; by_cases hk : k = x
   · subst hk; simp [sigAttrs_of_get h, hp]
   · simp [hk]
+
+theorem sigAttrs_set_keep {m : AMap SigE} {x : Nat} {e' : SigE}
+    (h : match m.get x with | some e => e'.attrs = e.attrs | none => False) : sigAttrs (m.set x e') = sigAttrs m := by
+  cases hm : m.get x with
+  | none => rw [hm] at h; exact absurd h id
+  | some e => rw [hm] at h; exact sigAttrs_set_same hm h
 
 
 @[simp] theorem nodeName_eq (g : G) (n : Nat) : nodeName g n = nodeNameC g.nodes n := rfl
